@@ -405,7 +405,9 @@ func (m *Machine) chanNote(ch *Chan) {
 	if m.mergeDepth > 0 {
 		panic(pathEnd{kind: endAbortMerge, msg: "channel operation inside merged call"})
 	}
-	if ch != nil && ch.obj.stamp == 0 && m.initing == 0 {
+	if ch != nil && ch.obj.stamp == 0 && m.initing == 0 && !(ch.closed && len(ch.buf) == 0) {
+		// (a channel closed by its initialiser, like context's closedchan, is
+		// immutable from here on: receives complete at once and change nothing)
 		m.unsupported("operation on a channel created during package initialisation")
 	}
 }
